@@ -140,7 +140,19 @@ def run_pack(prop, cases, grounds=(), bounded=(), *, tier="quick", seed=0, assum
     discharged = [r for r in prove if r["status"] == "discharged"]
     refuted = [r for r in prove if r["status"] == "refuted"]
     unknown = [r for r in prove if r["status"] == "unknown"]
-    vacuous = [r for r in covers if r["status"] == "vacuous"]
+    # vacuity guard: a case (unit x input shape) all of whose completed paths have an unsatisfiable
+    # path condition proves nothing -> checker error.  A single infeasible path next to reachable
+    # ones (a branch kept because its feasibility check timed out) is harmless: its obligations
+    # hold vacuously and the reachable paths carry the proof; it is reported, not fatal.
+    by_case = {}
+    for r in covers:
+        c = r.get("_case")
+        by_case.setdefault((c.unit, c.case) if c is not None else r["id"], []).append(r)
+    vacuous = []
+    infeasible_paths = [r for r in covers if r["status"] == "vacuous"]
+    for key, rs in by_case.items():
+        if rs and all(r["status"] == "vacuous" for r in rs):
+            vacuous.extend(rs)
 
     # ---- ledger
     ledger_path = os.path.join(VERIF, "ledger", f"{prop}.json")
@@ -288,7 +300,7 @@ def run_pack(prop, cases, grounds=(), bounded=(), *, tier="quick", seed=0, assum
             "refuted": [r["id"] for r in refuted][:50],
             "known_findings_matched": sorted({(h.get("id") or h.get("obligation")) for h, _ in known_hits}),
             "obligations_matching_known_findings": len(known_hits),
-            "vacuity": {"path_covers": len(covers), "reachable": sum(1 for r in covers if r["status"] == "covered"), "vacuous": [r["id"] for r in vacuous][:20], "note": "each completed path carries a cover (= must-fail twin of `ensures false`): its path condition must be satisfiable"},
+            "vacuity": {"path_covers": len(covers), "reachable": sum(1 for r in covers if r["status"] == "covered"), "vacuous": [r["id"] for r in vacuous][:20], "infeasible_paths_next_to_reachable_ones": len(infeasible_paths) - len(vacuous), "note": "each completed path carries a cover (= must-fail twin of `ensures false`): its path condition must be satisfiable"},
             "out_of_subset": [list(x) for x in out_of_subset][:30],
             "engine_errors": [list(x[:3]) for x in engine_errors][:30],
             "ledger": {"expected_ids": None if update_ledger or not os.path.exists(ledger_path) else len(json.load(open(ledger_path))["obligation_ids"]), "present_ids": len(present), "missing": missing[:30]},
